@@ -5,6 +5,30 @@ V = os.path.dirname(os.path.dirname(os.path.abspath(__file__)))
 ALL = ["C%02d" % i for i in range(1, 21)]
 
 CHECKS = {
+ "C01": dict(engine="priority-engine", cat="model_checking", design="§5 C01, §4.2, §3.3 B2/B3",
+   text="TLC checks capacity, round budget and conservation invariants of the PrioV2/PrioV1 specifications in bounded configurations built from the real divider table; transition-cover paths of the state graph are replayed into the real scheduler gated at the verif hooks (abstract state compared after every step) and continued adversarially (inputs full, nothing released); free-running randomized runs add unbuffered inputs and large configurations; the TLA+ monitor Mon_Prio decides received - release-issued <= H on every recorded trace.",
+   note="Trusted: TLC, Go testing/synctest, the verif hooks. Exhaustive only in the small configurations listed in the evidence; larger ones by randomized runs.",
+   technique="TLA+ spec + TLC invariants; gated replay of TLC transition cover into real code; TLC monitor on recorded traces"),
+ "C02": dict(engine="priority-engine", cat="model_checking", design="§5 C02, §4.2",
+   text="Order/exactly-once invariant of the specification checked by TLC; the same replayed paths are drained to termination and Mon_Prio decides, per input, consecutive ordinals, correct tag, nothing missing at close and nothing unwritten delivered; free-running runs with one dispatcher add large configurations and unbuffered inputs.",
+   note="Trusted: TLC, synctest; per-priority order is observed at a single reader.",
+   technique="TLA+ spec + TLC invariants; gated replay; TLC monitor on recorded traces"),
+ "C05": dict(engine="priority-engine", cat="model_checking", design="§5 C05, §4.2",
+   text="Saturated configurations of the specification (infinite supply): TLC enumerates every release order and grouping and checks the share invariants; every cover path is replayed with inputs topped up before each scheduler step and stalled; Mon_Prio decides per-priority in-flight <= share and exact shares at the stall point.",
+   note="Trusted: TLC, synctest; share = real divider(all priorities, H). Bounded configurations.",
+   technique="TLA+ saturated spec + TLC; gated replay with stall continuation; TLC monitor"),
+ "C06": dict(engine="priority-engine", cat="model_checking", design="§5 C06, §4.2",
+   text="TLC liveness (every written item eventually received; termination) under weak/strong fairness with a vacuity twin; safety form NoIdleBlock; on the real code every cover path is continued into the alone-scenario (nothing in flight, one priority has data, nothing released => all H handlers) and drained under a virtual deadline; Mon_Prio decides.",
+   note="Trusted: TLC liveness checking, synctest virtual time (eventually = within a virtual deadline with the step enabled).",
+   technique="TLA+ liveness under fairness (TLC); gated replay with alone/drain continuations; TLC monitor"),
+ "C07": dict(engine="priority-engine", cat="model_checking", design="§5 C07, §4.2",
+   text="TLC checks that Closed implies drained, delivered and released (safety) and termination (liveness); replayed paths end in arbitrary states and are then closed, released and drained: Mon_Prio decides that Output()/Err() close only then, do close by the virtual deadline, and yield no non-nil error.",
+   note="Trusted: TLC, synctest.",
+   technique="TLA+ spec + TLC safety/liveness; gated replay with drain continuation; TLC monitor"),
+ "C15": dict(engine="priority-engine", cat="fault_enumeration", design="§5 C15, §4.2",
+   text="Fault model: TLC corrupts the result of any one divider call (over/under-allocation) at any reachable state of the bounded configurations and checks the fail-safe invariants; every such behaviour in the transition cover is replayed with the fault injected at that very call of the real code; divider arguments seen by a wrapping divider are decided by TLC (PureContract); the constructor clause by PureUtils on the real New.",
+   note="Trusted: TLC, synctest. One fault per behaviour; bounded configurations.",
+   technique="TLA+ fault-budget spec + TLC; gated replay with fault injection; TLC validation of recorded divider calls"),
  "C13": dict(engine="pure-engine", cat="model_checking", design="§5 C13, §4.1",
    text="Apalache proves the postcondition for the specification's Recalculate over all 64-bit inputs (with a regression twin for the repaired branch and a vacuity twin); the Go function is bound to it by validating every recorded call - exhaustive small domain by TLC, seeded boundary-directed 64-bit calls by Apalache - against the property's postcondition.",
    note="Trusted: Apalache/Z3, TLC, the transcription RateConv.tla (itself checked for conformance on every recorded call).",
@@ -36,7 +60,9 @@ def main():
              hooks=dict(guard="verif", enable="go1.26.8 test -tags verif (harness module /verif/harness, replace => /repo and /repo/v2)",
                         baseline_off_cmd="python3 /verif/tools/baseline.py /repo", source_commits=hooks, add_only=True),
              engines=[dict(name="pure-engine", path="/verif/lib/pure.py", serves_properties=["C13", "C14", "C18"],
-                           kind_free_text="TLA+ specs of the pure functions; TLC/Apalache decide recorded calls of the real functions")],
+                           kind_free_text="TLA+ specs of the pure functions; TLC/Apalache decide recorded calls of the real functions"),
+                      dict(name="priority-engine", path="/verif/lib/prio.py", serves_properties=["C01", "C02", "C05", "C06", "C07", "C15"],
+                           kind_free_text="PrioV2/PrioV1 TLA+ specs; TLC model checking; gated replay of transition covers into the real scheduler; TLA+ monitors on recorded traces")],
              checks=checks,
              notes="Exit codes: 0 held, 1 VIOLATION (real-code behaviour contradicts the property), 2 inconclusive (tool/build failure; never a verdict).",
              not_applicable=[dict(property_id=p, reason=REASON_PENDING) for p in ALL if p not in CHECKS])
